@@ -100,6 +100,126 @@ func hashFacts(c *Ctx) {
 		}
 	}
 	c.Op(fmt.Sprintf("hashfns %d", len(fns)), "ok")
+	hashDataFacts(c, dir, fset)
+}
+
+// hashDataFacts: what stands behind the names the Hash functions put into their rlpHash literal —
+//   * the local `hashData` is getHashData(tx), the local `firstSignData` is tx.data.Sigs (assignment inside each Hash func),
+//   * getHashData returns tx.data.Data, except for a decodable box with sub-txs: calcBoxSubTxHashSet(box.SubTxList),
+//     which appends subTx.Hash() per sub-tx,
+//   * the accessors tx.Type() / Version() / ChainID() return the txdata fields of the same name.
+// Extracted with go/parser on every run; compared by the model driver with the committed expectation.
+func hashDataFacts(c *Ctx, dir string, fset *token.FileSet) {
+	var lines []string
+	render := func(e ast.Expr) string {
+		var sb strings.Builder
+		printExprArgs(&sb, e)
+		return sb.String()
+	}
+	for _, file := range []string{"tx_signing.go", "tx.go"} {
+		f, err := parser.ParseFile(fset, filepath.Join(dir, file), nil, 0)
+		if err != nil {
+			c.Op("hashdata parse-error "+file, "ok")
+			continue
+		}
+		for _, d := range f.Decls {
+			fd, ok := d.(*ast.FuncDecl)
+			if !ok || fd.Body == nil {
+				continue
+			}
+			recv := ""
+			if fd.Recv != nil {
+				switch t := fd.Recv.List[0].Type.(type) {
+				case *ast.Ident:
+					recv = t.Name
+				case *ast.StarExpr:
+					if id, ok := t.X.(*ast.Ident); ok {
+						recv = id.Name
+					}
+				}
+			}
+			name := fd.Name.Name
+			switch {
+			case name == "Hash" && (recv == "DefaultSigner" || recv == "ReimbursementTxSigner" || recv == "GasPayerSigner" || recv == "Transaction"):
+				ast.Inspect(fd.Body, func(n ast.Node) bool {
+					as, ok := n.(*ast.AssignStmt)
+					if !ok || len(as.Lhs) != 1 || len(as.Rhs) != 1 {
+						return true
+					}
+					if id, ok := as.Lhs[0].(*ast.Ident); ok && (id.Name == "hashData" || id.Name == "firstSignData") {
+						lines = append(lines, fmt.Sprintf("hashdata local %s %s %s", recv, id.Name, render(as.Rhs[0])))
+					}
+					return true
+				})
+			case recv == "" && (name == "getHashData" || name == "calcBoxSubTxHashSet"):
+				ast.Inspect(fd.Body, func(n ast.Node) bool {
+					switch x := n.(type) {
+					case *ast.ReturnStmt:
+						for _, r := range x.Results {
+							lines = append(lines, fmt.Sprintf("hashdata return %s %s", name, render(r)))
+						}
+					case *ast.IfStmt:
+						lines = append(lines, fmt.Sprintf("hashdata cond %s %s", name, render(x.Cond)))
+					case *ast.CallExpr:
+						if id, ok := x.Fun.(*ast.Ident); ok && id.Name == "append" && len(x.Args) == 2 {
+							lines = append(lines, fmt.Sprintf("hashdata append %s %s", name, render(x.Args[1])))
+						}
+					}
+					return true
+				})
+			case recv == "Transaction" && (name == "Type" || name == "Version" || name == "ChainID"):
+				ast.Inspect(fd.Body, func(n ast.Node) bool {
+					if x, ok := n.(*ast.ReturnStmt); ok {
+						for _, r := range x.Results {
+							lines = append(lines, fmt.Sprintf("hashdata accessor %s %s", name, render(r)))
+						}
+					}
+					return true
+				})
+			}
+		}
+	}
+	sort.Strings(lines)
+	for _, ln := range lines {
+		c.Op(ln, "ok")
+	}
+	c.Op(fmt.Sprintf("hashdata count %d", len(lines)), "ok")
+}
+
+// printExprArgs renders an expression with call arguments and binary operators (no spaces).
+func printExprArgs(sb *strings.Builder, e ast.Expr) {
+	switch x := e.(type) {
+	case *ast.Ident:
+		sb.WriteString(x.Name)
+	case *ast.SelectorExpr:
+		printExprArgs(sb, x.X)
+		sb.WriteString("." + x.Sel.Name)
+	case *ast.CallExpr:
+		printExprArgs(sb, x.Fun)
+		sb.WriteString("(")
+		for i, a := range x.Args {
+			if i > 0 {
+				sb.WriteString(",")
+			}
+			printExprArgs(sb, a)
+		}
+		sb.WriteString(")")
+	case *ast.BinaryExpr:
+		printExprArgs(sb, x.X)
+		sb.WriteString(x.Op.String())
+		printExprArgs(sb, x.Y)
+	case *ast.BasicLit:
+		sb.WriteString(x.Value)
+	case *ast.ParenExpr:
+		sb.WriteString("(")
+		printExprArgs(sb, x.X)
+		sb.WriteString(")")
+	case *ast.UnaryExpr:
+		sb.WriteString(x.Op.String())
+		printExprArgs(sb, x.X)
+	default:
+		sb.WriteString(fmt.Sprintf("%T", e))
+	}
 }
 
 func printExpr(sb *strings.Builder, e ast.Expr) {
